@@ -36,6 +36,15 @@ ASSUMPTIONS = [
     "(2e-3 relative for z < -1, 1e-12 elsewhere) - the first pass and every later one (retain_graph, accumulation into .grad, Jacobian rows); additionally every pass "
     "must agree to 1e-12 with the same pass through a fresh graph, the tensors the forward left on the context must be bit-identical after every pass and the upstream tensors untouched; "
     "for BernoulliLikelihood.expected_log_prob the per-term accuracy is propagated through the rule: |error| <= sum_i |c_i| phi/Phi(x_i) tol(x_i)",
+    "parameter lattice (part params): 'the whole valid range' of a likelihood parameter is read as the range of its DEFAULT constraint (noise, scale: Positive(); deg_free: "
+    "GreaterThan(2)), sampled at lower bound + 10^e, e = -6..2; values are driven in through the property setter or Module.initialize (tensor or python float) - writing "
+    "raw_* directly is C08's subject.  A likelihood with batch shape [K] is called with function values of shape [K, N] or [1, N]: a parameter tensor that adds an axis in "
+    "front of the function values is outside the domain (the rule pads its locations to the rank of the function distribution; the call raises a shape error, loudly).  "
+    "Integrals are held to 1e-9 (1 + |reference|) only at placements where the rule has no truncation error: Laplace with every node on one side of the observation "
+    "(|y - m| >= 12 function standard deviations, function sd <= scale: exact closed forms of E log p and log E p), Student-t with function sd <= scale / 5 "
+    "(p(y|f) = g_nu((y - f) / s) / s, so the mpmath integral for s = 1 minus log s is the reference for every decade of the noise), Beta with function sd <= "
+    "1 / (5 sqrt(1 + scale)) (mpmath integral); measured on the unchanged tree: <= 1.2e-12.  Members of a batch are additionally compared with an un-batched likelihood "
+    "carrying the same parameters",
     "a degree-2n monomial must miss the integral by s^2n n!; a different deficit is reported as MODEL-DRIFT (a rule exact to a higher degree "
     "would still satisfy the property)",
 ]
@@ -718,6 +727,10 @@ class LnSubject:
     """log_normal_cdf on a slice of the grid; derivative = phi/Phi to 2e-3 relative for z < -1, to rounding (1e-12) elsewhere"""
     node_name = "LogNormalCDFBackward"
     lower_out = ()
+    names = ("z",)               # the inputs that require grad (checks/c19_multi.run_history)
+
+    def mask(self, us):          # every upstream entry carries information (no structurally constant output entries)
+        return us
 
     def __init__(self, torch, it):
         mp = ref.mpm()
@@ -756,7 +769,11 @@ class BernSubject:
     2e-3 relative where its argument is below -1 and by rounding elsewhere"""
     node_name = "LogNormalCDFBackward"
     lower_out = ()
+    names = ("mean", "variance")
     N = 4
+
+    def mask(self, us):
+        return us
 
     def __init__(self, torch, gpytorch, it, g):
         import numpy as np
@@ -887,7 +904,356 @@ def run_lncdf(torch, gpytorch, it):
 
 
 # =====================================================================================================================================
-RUNNERS = dict(rediff=run_rediff, poly=run_poly, table=run_table, shape=run_shape, cell=run_cell, cond=run_cond, bern=run_bern, integral=run_integral, lncdf=run_lncdf)
+# (f) parameter lattice (Quadrature.tla part "params"): every parameter over its whole valid range in decades, batched parameter tensors
+#     mixing small and large values, observations placed where the rule has no truncation error
+# =====================================================================================================================================
+PARAM_ATTR = {"noise": "noise", "deg_free": "deg_free", "scale": "scale"}
+PARAM_TOL = 1e-9              # integrals in the no-truncation regimes: relative to 1 + |reference| (calibrated on the unchanged tree: <= 4e-12)
+F_VALUES = [1e-6, -0.3, 100.0, -1e-3, 2.5, -40.0]       # function values for the conditional: magnitudes 1e-6 .. 1e2, both signs
+
+
+def qf(q):
+    return Fraction(int(q[0]), int(q[1]))
+
+
+def param_ref_items(decades, places):
+    """reference integrals that do not depend on the decade of a location-scale parameter: Student-t in dimensionless form (function sd r,
+    observation k, scale 1) per deg_free decade; Beta per scale decade (absolute)"""
+    out = []
+    for e in decades:
+        for i, pl in enumerate(places["StudentT"]):
+            out.append(dict(kind="pref", lik="StudentT", e=e, i=i, pl=pl))
+        for i, pl in enumerate(places["Beta"]):
+            out.append(dict(kind="pref", lik="Beta", e=e, i=i, pl=pl))
+    return out
+
+
+def beta_place(s, pl):
+    """(m, v, y) as the floats handed to the code for Beta scale s (float) and placement <<m, r, y>>"""
+    sd = float(qf(pl[1])) / math.sqrt(1.0 + s)
+    return float(qf(pl[0])), sd * sd, float(qf(pl[2]))
+
+
+def run_pref(torch, gpytorch, it):
+    mp = ref.mpm()
+    pl = it["pl"]
+    if it["lik"] == "StudentT":
+        nu = 2 + Fraction(10) ** it["e"]
+        r, k = qf(pl[1]), qf(pl[2])
+        elp, lm = ref.ref_integrals(mp, "stu", dict(noise=1, df=mp.mpf(nu.numerator) / nu.denominator), 0, mp.mpf((r * r).numerator) / (r * r).denominator,
+                                    mp.mpf(k.numerator) / k.denominator, fine=True)
+    else:
+        s = float(Fraction(10) ** it["e"])
+        m, v, y = beta_place(s, pl)
+        elp, lm = ref.ref_integrals(mp, "beta", dict(scale=s), m, v, y)          # narrow placement: six panels agree with 28 panels at 40 digits to 1e-30 (measured for s = 1e-6, 1, 100)
+    return [dict(aux=True, pref=[it["lik"], it["e"], it["i"]], elp=mp.nstr(elp, 25), lm=mp.nstr(lm, 25))]
+
+
+def param_items(states, refs, seed, thorough):
+    out = []
+    for k, st in enumerate(sorted(states, key=repr)):
+        c, o = st["c"], st["out"]
+        if str(c["kind"]) != "param":
+            continue
+        lik = str(c["lik"])
+        names = sorted(o["values"][0].keys()) if lik != "Bernoulli" else []
+        it = dict(kind="param", lik=lik, layout=str(c["layout"]), route=str(c["route"]), bs=[int(x) for x in c["bs"]], fs=[int(x) for x in c["fs"]],
+                  exps=[{p: int(m[p]) for p in names} for m in c["members"]],
+                  values=[{p: [int(x) for x in m[p]] for p in names} for m in o["values"]],
+                  cond=[{a: [int(x) for x in q] for a, q in m.items()} for m in o["cond"]],
+                  shape=[int(x) for x in o["shape"]], pshape=[int(x) for x in o["pshape"]],
+                  reads=sorted([[int(x) for x in b], int(j), [int(x) for x in fi]] for b, j, fi in o["reads"]),
+                  regime=str(o["regime"]), place=[[[int(x) for x in q] for q in pl] for pl in o["place"]], reach=int(o["reach"]), seed=seed)
+        it["refs"] = {}
+        for m in it["exps"]:
+            key = {"StudentT": m.get("deg_free"), "Beta": m.get("scale")}.get(lik)
+            if key is not None:
+                for i in range(len(it["place"])):
+                    it["refs"]["%d/%d" % (key, i)] = refs[(lik, key, i)]
+        for n in ((0, 40) if thorough else ((0, 40)[k % 2],)):
+            out.append(dict(it, n=n))
+    return out
+
+
+def func_items(states):
+    """Bernoulli: the decades are laid over the function distribution; one item = one mean with every variance decade as a batch"""
+    by = {}
+    for st in states:
+        c, o = st["c"], st["out"]
+        if str(c["kind"]) == "func":
+            by.setdefault((int(c["em"]), int(c["sg"])), []).append((int(c["ev"]), [int(x) for x in o["m"]], [int(x) for x in o["v"]]))
+    return [dict(kind="func", em=em, sg=sg, m=sorted(v)[0][1], ev=[e for e, _, _ in sorted(v)], v=[q for _, _, q in sorted(v)]) for (em, sg), v in sorted(by.items())]
+
+
+def set_params(torch, lik, it):
+    """drive the value into the likelihood along the route of the case"""
+    D = torch.float64
+    route, bs = it["route"], tuple(it["bs"])
+    vals = {}
+    for p in it["values"][0]:
+        col = [float(qf(m[p])) for m in it["values"]]
+        if route.endswith("float"):
+            vals[p] = col[0]
+        elif bs:
+            vals[p] = torch.tensor(col, dtype=D).reshape(*bs, 1)
+        else:
+            vals[p] = torch.tensor(col[0], dtype=D)
+    if route.startswith("setter"):
+        for p, v in vals.items():
+            setattr(lik, PARAM_ATTR[p], v)
+    elif route.startswith("initialize"):
+        lik.initialize(**{PARAM_ATTR[p]: v for p, v in vals.items()})
+    elif route != "none":
+        raise core.Machinery("unknown route " + route)
+
+
+def scalar_twin(torch, gpytorch, it, j):
+    """a fresh un-batched likelihood carrying the parameters of member j (set through the tensor setter)"""
+    L = gpytorch.likelihoods
+    lik = {"Laplace": L.LaplaceLikelihood, "StudentT": L.StudentTLikelihood, "Beta": L.BetaLikelihood}[it["lik"]]()
+    for p, q in it["values"][j].items():
+        setattr(lik, PARAM_ATTR[p], torch.tensor(float(qf(q)), dtype=torch.float64))
+    return lik
+
+
+def run_param(torch, gpytorch, it):
+    from contextlib import ExitStack
+    D = torch.float64
+    mp = ref.mpm()
+    L = gpytorch.likelihoods
+    name, bs, fs, n = it["lik"], tuple(it["bs"]), tuple(it["fs"]), it["n"]
+    K = len(it["values"])
+    desc = "%s(batch_shape=%s) %s via %s, function values of shape %s, rule with %s nodes" % (
+        name, list(bs), " ; ".join(", ".join("%s=%s" % (p, float(qf(q))) for p, q in m.items()) for m in it["values"]) or "no parameter", it["route"], list(fs), n or "default 20")
+    base = dict(ok=True, nontrivial=True, case=it)
+    kb = ["param", name, it["layout"], it["route"], list(bs), list(fs), it["exps"], n]
+    out = []
+
+    def res(aspect):
+        r = dict(base, key=kb + [aspect], sig="C13/params/%s/%s" % (name, aspect))
+        out.append(r)
+        return r
+
+    def fail(r, what, detail):
+        if r["ok"]:
+            r.update(ok=False, sig=r["sig"] + "/" + what, detail="%s: %s" % (desc, detail))
+
+    # ---- construct and set ----------------------------------------------------------------------------------------------------------
+    def build():
+        with ExitStack() as st:
+            if n:
+                st.enter_context(gpytorch.settings.num_gauss_hermite_locs(n))
+            if name == "Bernoulli":
+                lik = L.BernoulliLikelihood()
+            else:
+                lik = {"Laplace": L.LaplaceLikelihood, "StudentT": L.StudentTLikelihood, "Beta": L.BetaLikelihood}[name](batch_shape=torch.Size(bs))
+        set_params(torch, lik, it)
+        return lik
+    r = res("readback")
+    ok, lik = core.guarded(build)
+    if not ok:
+        fail(r, "raises", lik)
+        return out
+    nodes = lik.quadrature.locations.detach()
+    if nodes.numel() != (n or 20):
+        fail(r, "num-locs", "the rule has %d nodes" % nodes.numel())
+        return out
+    if float(nodes.abs().max()) * math.sqrt(2.0) >= it["reach"]:
+        return [dict(machinery="Quadrature.tla NodeReach=%d but a node of the %d-point rule lies %.3f standard deviations out" % (it["reach"], nodes.numel(), float(nodes.abs().max()) * math.sqrt(2.0)))]
+    for p in it["values"][0]:
+        got = getattr(lik, PARAM_ATTR[p]).detach()
+        if list(got.shape) != it["pshape"]:
+            fail(r, p + "/shape", "likelihood.%s has shape %s, expected batch_shape + [1] = %s" % (p, list(got.shape), it["pshape"]))
+            continue
+        for j in range(K):
+            want = float(qf(it["values"][j][p]))
+            g = float(got.reshape(-1)[j if bs else 0])
+            if not abs(g - want) <= 1e-12 * want:
+                fail(r, p, "likelihood.%s of member %d reads %.17g after setting %.17g" % (p, j, g, want))
+    # ---- the conditional: parameters of the returned distribution ---------------------------------------------------------------------
+    r = res("conditional")
+    nf = int(math.prod(fs))
+    f = torch.tensor([F_VALUES[i % len(F_VALUES)] for i in range(nf)], dtype=D).reshape(fs)
+    with torch.no_grad():
+        ok, d = core.guarded(lambda: lik(f))
+    tcls = dict(Bernoulli="Bernoulli", Laplace="Laplace", StudentT="StudentT", Beta="Beta")[name]
+    if not ok:
+        fail(r, "raises", d)
+    elif type(d).__name__ != tcls:
+        fail(r, "class", "the conditional is a %s" % type(d).__name__)
+    elif list(d.batch_shape) != it["shape"]:
+        fail(r, "shape", "the conditional has batch shape %s, broadcast(parameter %s, function %s) = %s" % (list(d.batch_shape), it["pshape"], list(fs), it["shape"]))
+    else:
+        sh = tuple(it["shape"])
+        bc = lambda t: torch.broadcast_to(t.detach(), sh)
+        attrs = {}
+        if name in ("Laplace", "StudentT"):
+            attrs = dict(loc=bc(d.loc), scale=bc(d.scale))
+            if name == "StudentT":
+                attrs["df"] = bc(d.df)
+        elif name == "Beta":
+            attrs = dict(c1=bc(d.concentration1), c0=bc(d.concentration0))
+        else:
+            attrs = dict(probs=bc(d.probs))
+        for b, j, fi in it["reads"]:
+            cj = it["cond"][j - 1]
+            fv = float(f[tuple(fi)])
+            el = {a: float(t[tuple(b)]) for a, t in attrs.items()}
+            where = "element %s (member %d, f=%g)" % (b, j, fv)
+            if name in ("Laplace", "StudentT"):
+                if el["loc"] != fv:
+                    fail(r, "loc", "%s: loc = %.17g" % (where, el["loc"]))
+                q = qf(cj["scale_sq"])
+                want = float(mp.sqrt(mp.mpf(q.numerator) / q.denominator))
+                if not abs(el["scale"] - want) <= 1e-12 * want:
+                    fail(r, "scale", "%s: scale = %.17g, documented sqrt(noise) = %.17g (noise = %s)" % (where, el["scale"], want, q))
+                if name == "StudentT":
+                    want = float(qf(cj["df"]))
+                    if not abs(el["df"] - want) <= 1e-12 * want:
+                        fail(r, "df", "%s: df = %.17g, documented deg_free = %.17g" % (where, el["df"], want))
+            elif name == "Beta":
+                tot = qf(cj["conc_sum"])
+                s_ = tot - 2
+                if not abs((el["c1"] + el["c0"]) - float(tot)) <= 1e-14 * float(tot):
+                    fail(r, "concentration-sum", "%s: concentration1 + concentration0 = %.17g, documented scale + 2 = %.17g (scale = %s)" % (where, el["c1"] + el["c0"], float(tot), s_))
+                sg = 1 / (1 + mp.exp(-mp.mpf(fv)))
+                want = float(sg * (mp.mpf(s_.numerator) / s_.denominator) + 1)
+                if not abs(el["c1"] - want) <= 1e-14 * want:
+                    fail(r, "concentration1", "%s: concentration1 = %.17g, documented sigmoid(f) scale + 1 = %.17g (scale = %s)" % (where, el["c1"], want, s_))
+            else:
+                want = float(mp.ncdf(mp.mpf(fv)))
+                if not abs(el["probs"] - want) <= 1e-12:
+                    fail(r, "probs", "%s: probs = %.17g, Phi(f) = %.17g" % (where, el["probs"], want))
+    if name == "Bernoulli":
+        return out
+    # ---- integrals where the rule has no truncation error -----------------------------------------------------------------------------
+    place = it["place"]
+    N = fs[-1]
+    W = []
+    for j in range(K):
+        v = it["values"][j]
+        W.append(math.sqrt(float(qf(v["noise"]))) if name != "Beta" else 1.0 / math.sqrt(1.0 + float(qf(v["scale"]))))
+    per_row = len(fs) > 1 and len(bs) > 0 and fs[0] == K     # function row j belongs to member j: every member gets its own placement scale; a single row is shared by all members
+    rows = fs[0] if len(fs) > 1 else 1
+    mean, var, y = torch.empty(fs, dtype=D), torch.empty(fs, dtype=D), torch.empty(fs, dtype=D)
+    wrow = []
+    for row in range(rows):
+        w = W[row] if per_row else min(W)
+        wrow.append(w)
+        for i in range(N):
+            pl = place[i]
+            m_ = float(qf(pl[0]))
+            if name == "Beta":
+                # the width of the conditional in f is 1/sqrt(1 + s); with a shared function the narrowest member sets it
+                sref = float(qf(it["values"][row if per_row else W.index(min(W))]["scale"]))
+                m_, v_, y_ = beta_place(sref, pl)
+            else:
+                sd = float(qf(pl[1])) * w
+                v_, y_ = sd * sd, m_ + float(qf(pl[2])) * w
+            idx = (row, i) if len(fs) > 1 else (i,)
+            mean[idx], var[idx], y[idx] = m_, v_, y_
+    fd = gpytorch.distributions.MultivariateNormal(mean, torch.diag_embed(var))
+    twins = {}
+    for method in ("expected_log_prob", "log_marginal"):
+        r = res(method)
+        with torch.no_grad():
+            ok, got = core.guarded(lambda: getattr(lik, method)(y, fd))
+        if not ok:
+            fail(r, "raises", got)
+            continue
+        if list(got.shape) != it["shape"]:
+            fail(r, "result-shape", "result shape %s, expected %s" % (list(got.shape), it["shape"]))
+            continue
+        n_ref = 0
+        for b, j, fi in it["reads"]:
+            vj = it["values"][j - 1]
+            m_, v_, y_ = float(mean[tuple(fi)]), float(var[tuple(fi)]), float(y[tuple(fi)])
+            g = float(got[tuple(b)])
+            i = fi[-1]
+            row = fi[0] if len(fs) > 1 else 0
+            where = "element %s (member %d: %s; m=%.6g v=%.6g y=%.9g)" % (b, j, ", ".join("%s=%.9g" % (p, float(qf(q))) for p, q in vj.items()), m_, v_, y_)
+            want = None
+            if name == "Laplace":
+                # closed form; holds for every member because the placement condition does not involve the noise; sd <= b keeps the tilted mass on one side
+                if math.sqrt(v_) <= W[j - 1] * 1.0000001:
+                    e_, l_ = ref.laplace_one_sided(mp, qf(vj["noise"]).numerator / mp.mpf(qf(vj["noise"]).denominator), m_, v_, y_)
+                    want, how = float(e_ if method == "expected_log_prob" else l_), "closed form of the documented Laplace(f, sqrt(noise))"
+            elif wrow[row] == W[j - 1]:
+                if name == "StudentT":
+                    G = it["refs"]["%d/%d" % (it["exps"][j - 1]["deg_free"], i)]
+                    want = float(mp.mpf(G["elp" if method == "expected_log_prob" else "lm"]) - mp.log(mp.mpf(qf(vj["noise"]).numerator) / qf(vj["noise"]).denominator) / 2)
+                    how = "scale-equivariant reference (mpmath integral for scale 1, minus log sqrt(noise))"
+                else:
+                    G = it["refs"]["%d/%d" % (it["exps"][j - 1]["scale"], i)]
+                    want, how = float(mp.mpf(G["elp" if method == "expected_log_prob" else "lm"])), "mpmath integral of the documented Beta density"
+            if want is not None:
+                n_ref += 1
+                r["meas_err"] = max(r.get("meas_err", 0.0), abs(g - want) / (1 + abs(want)))
+                if not abs(g - want) <= PARAM_TOL * (1 + abs(want)):
+                    fail(r, "no-truncation-regime", "%s: %s = %.15g, %s gives %.15g (error %.3e, allowed %.1e)" % (where, method, g, how, want, abs(g - want), PARAM_TOL * (1 + abs(want))))
+            if K > 1:
+                # fresh object with the same state: member j alone, un-batched, same function value
+                if j not in twins:
+                    twins[j] = scalar_twin(torch, gpytorch, it, j - 1)
+                fd1 = gpytorch.distributions.MultivariateNormal(mean[tuple(fi)].reshape(1), var[tuple(fi)].reshape(1, 1))
+                with torch.no_grad():
+                    ok, one = core.guarded(lambda: float(getattr(twins[j], method)(y[tuple(fi)].reshape(1), fd1)))
+                if not ok:
+                    fail(r, "raises", "un-batched twin: %s" % one)
+                elif not abs(g - one) <= PARAM_TOL * (1 + abs(one)):
+                    fail(r, "member-vs-scalar", "%s: %s = %.15g in the batch, %.15g from an un-batched likelihood with the parameters of member %d" % (where, method, g, one, j))
+        if n_ref == 0:
+            return [dict(machinery="C13 params: no element of %s could be referenced" % desc)]
+        if r["ok"] and it["layout"] == "batch" and it["route"] == "setter-tensor" and per_row and set(it["exps"][0].values()) == {-6} and set(it["exps"][1].values()) == {0}:
+            r["sample"] = dict(case=desc, method=method, referenced_elements=n_ref, result=[float(x) for x in got.reshape(-1)[:3]])
+    return out
+
+
+def run_func(torch, gpytorch, it):
+    """Bernoulli over the decades of the function distribution: marginal = Phi(m / sqrt(1 + v)) for every (m, v); expected_log_prob where the
+    function is narrow (v <= 1e-2: no truncation error, only log_normal_cdf's documented 2e-3)"""
+    D = torch.float64
+    mp = ref.mpm()
+    m = float(qf(it["m"]))
+    vs = [float(qf(q)) for q in it["v"]]
+    Kv = len(vs)
+    lik = gpytorch.likelihoods.BernoulliLikelihood()
+    base = dict(ok=True, nontrivial=True, case=it)
+    out = []
+    mean = torch.full((Kv, 1), m, dtype=D)
+    var = torch.tensor(vs, dtype=D).reshape(Kv, 1)
+    fd = gpytorch.distributions.MultivariateNormal(mean, var.reshape(Kv, 1, 1))
+    desc = "Bernoulli, function mean %g, variances %s as one batch" % (m, vs)
+    with torch.no_grad():
+        ok, got = core.guarded(lambda: (lik(fd).probs, lik.marginal(fd).probs, lik.log_marginal(torch.ones(Kv, 1, dtype=D), fd), lik.log_marginal(torch.zeros(Kv, 1, dtype=D), fd),
+                                        lik.expected_log_prob(torch.ones(Kv, 1, dtype=D), fd), lik.expected_log_prob(torch.zeros(Kv, 1, dtype=D), fd)))
+    if not ok:
+        return [dict(base, key=["func", it["em"], it["sg"]], ok=False, sig="C13/params/Bernoulli/function-decades/raises", detail="%s: %s" % (desc, got))]
+    for k, (ev, v) in enumerate(zip(it["ev"], vs)):
+        r = dict(base, key=["func", it["em"], it["sg"], ev], sig="C13/params/Bernoulli/function-decades")
+        out.append(r)
+        link = mp.mpf(m) / mp.sqrt(1 + mp.mpf(v))
+        want = mp.ncdf(link)
+        for nm, t in (("likelihood(dist).probs", got[0]), ("marginal(dist).probs", got[1])):
+            g = float(t.reshape(-1)[k])
+            if r["ok"] and not abs(g - float(want)) <= 1e-12:
+                r.update(ok=False, sig=r["sig"] + "/marginal", detail="%s: %s = %.17g for v=%g; Phi(m/sqrt(1+v)) = %.17g" % (desc, nm, g, v, float(want)))
+        for yy, t in ((1, got[2]), (0, got[3])):
+            wl = mp.log(want if yy else mp.ncdf(-link))
+            g = float(t.reshape(-1)[k])
+            if r["ok"] and wl > -20 and not abs(g - float(wl)) <= 1e-9 * (1 + abs(float(wl))):
+                r.update(ok=False, sig=r["sig"] + "/log_marginal", detail="%s: log_marginal(y=%d) = %.15g for v=%g; log Phi((2y-1) m/sqrt(1+v)) = %.15g" % (desc, yy, g, v, float(wl)))
+        if ev in (-6, -2):
+            for yy, t in ((1, got[4]), (0, got[5])):
+                we, _ = ref.ref_integrals(mp, "bern", {}, m, v, float(yy))
+                g = float(t.reshape(-1)[k])
+                if r["ok"] and not abs(g - float(we)) <= 2e-3 + 1e-4:
+                    r.update(ok=False, sig=r["sig"] + "/expected_log_prob", detail="%s: expected_log_prob(y=%d) = %.12g for v=%g; E log Phi((2y-1) f) = %.12g (allowed 2.1e-3)" % (desc, yy, g, v, float(we)))
+    return out
+
+
+# =====================================================================================================================================
+RUNNERS = dict(param=run_param, func=run_func, pref=run_pref, rediff=run_rediff, poly=run_poly, table=run_table, shape=run_shape, cell=run_cell, cond=run_cond, bern=run_bern, integral=run_integral, lncdf=run_lncdf)
 
 
 def worker(it):
